@@ -237,6 +237,11 @@ package discovery
 //@   ensures [every-entry-of-an-accepted-response-is-handled] isNilIface(ret(call (client.HTTPClient).Get #1).3)
 //@        && isNilIface(ret(call (*sqlStore).wipeOnSeedChange #1)) && did(call (*sqlStore).getTimestamp #2) && isNilIface(ret(call (*sqlStore).getTimestamp #2).1)
 //@        && ret(call (*sqlStore).getTimestamp #2).0 >= ret(call (*sqlStore).getTimestamp #1).0 ==> $done1
+// The seed is compared on EVERY successful update, also when the response is empty and the timestamp did not move (a server
+// that was reset and has since handed out exactly as many timestamps answers just that: without the comparison the client keeps
+// its copy of the old list for ever).
+//@   ensures [the-seed-is-compared-on-every-successful-update] isNilIface(result) ==> did(call (*sqlStore).wipeOnSeedChange #1) && isNilIface(ret(call (*sqlStore).wipeOnSeedChange #1))
+//@        && arg(call (*sqlStore).wipeOnSeedChange #1, 1) == service.ID && arg(call (*sqlStore).wipeOnSeedChange #1, 2) == ret(call (client.HTTPClient).Get #1).1
 
 // ---- C16: what the server hands out and what a search returns ----
 
